@@ -44,7 +44,7 @@ theorem callFn_mono (ft : FTab) (n : Nat) (ih : ∀ m, m < n → Mono o ft m)
           | succ k =>
             simp only
             intro h
-            have hinner : execL ⟨ft, o⟩ k { globals := s.globals, locals := some (ps.zip vs), declGlobal := declaredGlobals b, out := s.out } b ≠ .timeout := by
+            have hinner : execL ⟨ft, o⟩ k { globals := s.globals, locals := some (ps.zip vs), declGlobal := declaredGlobals b, out := s.out, imports := s.imports } b ≠ .timeout := by
               intro ht
               rw [ht] at h
               exact h rfl
